@@ -165,3 +165,16 @@ check("C17", "model_checking",
       "Free-running schedules; up to 6 routes and 3 proxy threads per scenario.",
       "TLC exhaustive model checking of Router.tla + TLC trace validation of recorded executions (RouterTrace.tla)",
       "DESIGN.md 3.7, 6 (C17)")
+check("C20", "model_checking",
+      "AsyncRouter.tla (route queue + wake-up, routing thread forwarding into per-stream unbounded buffers, installation of "
+      "queued routes after every select, consumers that park on Pending and are woken) is checked exhaustively by TLC for "
+      "2..3 streams with messages before and after conversion and senders dropping anywhere: InOrderOnce, EndAfterLast, "
+      "WakesPoller, Completes (the variant WakeFirst=TRUE strands a route and violates Completes). Seeded free-running "
+      "scenarios on the async build (1..6 streams from as many threads, consumers on block_on, LocalPool and manual "
+      "polling with a counting waker) are recorded and validated by TLC against AsyncTrace.tla: every item is the next one "
+      "of its stream and was sent, end-of-stream only after the sender is gone and everything sent was yielded, no message "
+      "reaches the routing thread for an id it has no stream for; the harness flags a Pending poll that is never woken.",
+      "Free-running schedules; the mapping of routing-thread ids to streams is not recorded, so routing-thread events are "
+      "checked only for 'no message dropped for an unknown id'; futures-channel is trusted.",
+      "TLC exhaustive model checking of AsyncRouter.tla + TLC trace validation of recorded executions (AsyncTrace.tla)",
+      "DESIGN.md 3.7, 6 (C20)")
